@@ -193,6 +193,7 @@ NOT_REACHED, GATE_OK, BLOCKED, GATE_RAISED, PROC_RAISED, FAILED, DONE, RECOVERED
 STATE_NAMES = ["not-reached", "gate-passed-not-processed", "gate-rejected", "gate-raised",
                "processor-raised", "failed", "completed", "recovered"]
 _seen_fp = set()
+_sampled = set()
 
 
 def clamp_running(fs, mx):
@@ -506,7 +507,7 @@ def case_sweep(ctx, n, tp):
     rng = ctx.rng(n)
     acc = {}
     lo, hi = n * G, min(total, (n + 1) * G)
-    last = None
+    pick = lo + (n * 31) % max(1, hi - lo)
     for idx in range(lo, hi):
         halt, codes = decode(idx, K)
         comps = [DEC[b] for b in codes]
@@ -515,13 +516,12 @@ def case_sweep(ctx, n, tp):
         state, res = run_scripted(ctx, acc, comps, factors, halt, maxamp, "sweep")
         k = "sweep_pipelines_%d_stage" % len(codes)
         acc[k] = acc.get(k, 0) + 1
-        last = (comps, factors, halt, maxamp, res)
+        if idx == pick and "sweep" not in _sampled and n >= 3 * ctx.nshards:
+            _sampled.add("sweep")
+            ctx.sample({"layer": "sweep", "pipeline": describe_scripted(comps, factors, halt, maxamp)(),
+                        "invocation_log": render_log(LOG), "result": render_result(res)}, cap=3)
     acc["sweep_pipelines"] = hi - lo
     flush(ctx, acc)
-    if last and n % 97 == 0:
-        comps, factors, halt, maxamp, res = last
-        ctx.sample({"layer": "sweep", "pipeline": describe_scripted(comps, factors, halt, maxamp)(),
-                    "result": render_result(res)})
 
 
 def case_random(ctx, n, tp):
@@ -549,7 +549,11 @@ def case_random(ctx, n, tp):
         maxamp = rng.choice(MAXAMPS if plain else MAXAMPS_X)
         halt = rng.random() < 0.5
         build = "add" if rng.random() < 0.7 else rng.randrange(5)
-        run_scripted(ctx, acc, comps, factors, halt, maxamp, "random", runs=2, build=build)
+        state, res = run_scripted(ctx, acc, comps, factors, halt, maxamp, "random", runs=2, build=build)
+        if "random" not in _sampled and k == 5 and state[2] != NOT_REACHED:
+            _sampled.add("random")
+            ctx.sample({"layer": "random", "pipeline": describe_scripted(comps, factors, halt, maxamp)(),
+                        "second_run_invocation_log": render_log(LOG), "result": render_result(res)}, cap=3)
         acc["random_pipelines"] = acc.get("random_pipelines", 0) + 1
         if k == 5:
             acc["five_stage_pipelines"] = acc.get("five_stage_pipelines", 0) + 1
@@ -663,8 +667,10 @@ def case_mapk(ctx, n, tp):
                     ctx.violation("mapk-output", "MAPK preset reported success with final_output %r, expected %r" % (fo, exp),
                                   {"pipeline": describe(), "input": repr(inp), "invocation_log": render_log(log),
                                    "result": render_result(res)})
-        if n % 7 == 0:
-            ctx.sample({"layer": "mapk", "pipeline": describe(), "input": repr(inp), "result": render_result(res)}, cap=6)
+        if "mapk" not in _sampled and variant != "plain":
+            _sampled.add("mapk")
+            ctx.sample({"layer": "mapk", "pipeline": describe(), "input": repr(inp), "invocation_log": render_log(log),
+                        "result": render_result(res)}, cap=3)
     flush(ctx, acc)
 
 
